@@ -5,6 +5,7 @@ use std::time::Duration;
 
 use crate::check::CheckSpec;
 use crate::drivers::*;
+use crate::gen::*;
 use crate::oracle::Rule;
 use crate::program::*;
 
@@ -21,7 +22,7 @@ impl PlanBuilder {
         let id = self.jobs.len();
         self.jobs.push(Job {
             id,
-            program,
+            programs: vec![program],
             cancelable,
             bound,
             rules: rules.iter().map(|r| rule_name(*r).to_string()).collect(),
@@ -33,6 +34,42 @@ impl PlanBuilder {
         if split {
             self.split.insert(id);
         }
+    }
+}
+
+impl PlanBuilder {
+    /// All programs of a generator configuration, each with `cycles` atomic collector cycles placed
+    /// at every combination of ring-push boundaries (all interleavings, no preemption bound).
+    pub fn add_gen(&mut self, cfg: &GenCfg, cycles: usize, configs: &[bool], rules: &[Rule], limit: u64) -> u64 {
+        let mut batch: Vec<Program> = Vec::new();
+        let mut all: Vec<Vec<Program>> = Vec::new();
+        let n = generate(cfg, limit, &mut |p| {
+            batch.push(p.collector(cycles, true, 0));
+            if batch.len() >= 100 {
+                all.push(std::mem::take(&mut batch));
+            }
+            true
+        });
+        if !batch.is_empty() {
+            all.push(batch);
+        }
+        for programs in all {
+            for &c in configs {
+                let id = self.jobs.len();
+                self.jobs.push(Job {
+                    id,
+                    programs: programs.clone(),
+                    cancelable: c,
+                    bound: None,
+                    rules: rules.iter().map(|r| rule_name(*r).to_string()).collect(),
+                    max_execs: 200_000,
+                    prefix: vec![],
+                    expand_only: false,
+                    engine: "SEQ".into(),
+                });
+            }
+        }
+        n
     }
 }
 
@@ -97,6 +134,37 @@ pub fn plan(property: &str, tier: &str) -> Option<CheckSpec> {
             }
             rule_text = "all named scenarios x both configurations x all schedules up to the preemption bound".to_string();
             bound_text = format!("preemptions <= {bound}; 2 collector cycles + final flush");
+        }
+        "C02" => {
+            let rules = [Rule::Liveness, Rule::NoPanic, Rule::Tree, Rule::NoExtra, Rule::Deliver, Rule::Hold];
+            let mut g = GenCfg::base("C02-tree");
+            g.traces = vec![
+                TraceOpt { trace: 0xA1, sampled: true, remote_parent: 0 },
+                TraceOpt { trace: 0xB2_0000_0000_0000_0000_0000_0000_0001, sampled: true, remote_parent: 0x7700_0000_0000_0077 },
+            ];
+            g.max_spans = 3;
+            g.max_parents = 2;
+            g.ordered_parents = !quick;
+            g.dup_parent = !quick;
+            g.allow_scope = true;
+            g.allow_child_local = true;
+            g.max_depth = 2;
+            g.max_locals = if quick { 1 } else { 3 };
+            g.max_len = if quick { 5 } else { 6 };
+            g.allow_noop = !quick;
+            let n1 = b.add_gen(&g, 1, &[false, true], &rules, 2_000_000);
+            // two actors in lock-step: spans created, scoped and finished on either thread
+            let mut g2 = g.clone();
+            g2.name = "C02-2actors".into();
+            g2.actors = 2;
+            g2.max_switches = 2;
+            g2.max_len = if quick { 4 } else { 5 };
+            g2.max_locals = 1;
+            g2.max_spans = 2;
+            g2.allow_noop = false;
+            let n2 = b.add_gen(&g2, 1, &[false, true], &rules, 2_000_000);
+            rule_text = format!("bounded-exhaustive generated programs ({n1} single-actor + {n2} two-actor lock-step) x every placement of 1 atomic collector cycle at a ring-push boundary x both configurations; non-trivial: a collector cycle falls between the first and last queue command");
+            bound_text = format!("<= {} spans, <= {} local spans, scope depth <= 2, <= {} operations; 1 cycle placed anywhere + final flush", g.max_spans, g.max_locals, g.max_len);
         }
         _ => return None,
     }
